@@ -22,6 +22,9 @@ structure DSt where
   released : Nat := 0
   dismissed : Nat := 0
   flapNotifs : Nat := 0
+  soon : Nat := 0
+  interleaved : Nat := 0
+  synced : Nat := 0
   caseFailed : Bool := false
   caseNontrivial : Bool := false
   nontrivial : Nat := 0
@@ -93,7 +96,7 @@ def handle (d : DSt) (n : Nat) (line : String) : IO DSt := do
         if !agree then
           IO.println s!"MISMATCH line={n} case={d.caseNo} op=R impl={showBool acc},{ost.toNat},{oty.toNat},{oat},{sup},{sbs.toNat},{showNotifs nts} model={showBool macc},{ms.core.state.toNat},{ms.core.stype.toNat},{ms.core.attempt},{ms.sup.toNat},{ms.sbs.toNat},{showNotifs mn}"
           d := { d with mismatches := d.mismatches + 1 }
-        let (bad, sp') := C02.specStep d.cfg d.sp (.result acc ost oty e nts)
+        let (bad, sp') := C02.specStep d.cfg d.sp (.result acc ost oty e nts (Sup.ofNat sup).hasState sbs)
         match bad with
         | some cl =>
           if !d.caseFailed then IO.println s!"SPECFAIL line={n} case={d.caseNo} clause={cl.name}"
@@ -109,44 +112,113 @@ def handle (d : DSt) (n : Nat) (line : String) : IO DSt := do
             sup := Sup.ofNat sup, sbs := sbs }
         return { d with st := st', sp := sp' }
     | _, _ => IO.println s!"BADLINE line={n}"; return d
-  | "F" :: rest =>
+  | "FR" :: rest =>
     let (pre, post) := splitBar rest
+    let parseF (ws : List String) : Option FEnv :=
+      match ws with
+      | [_fired, pa, en, ss, idt, isf, act, ivl, nin, pr] => do
+        pure { paused := ← parseBool? pa, enabled := ← parseBool? en, stateSuppressed := ← parseBool? ss,
+               inDowntime := ← parseBool? idt, isFlapping := ← parseBool? isf,
+               activeChecks := ← parseBool? act, interval := ← parseInt? ivl, nextIn := ← parseInt? nin,
+               parentRecent := ← parseBool? pr }
+      | _ => none
     match pre, splitSemi post with
-    | [dt, _via], [[fired, pa, en, ss, idt, isf, lk, pr], [sup, sbs], [nts]] =>
-      let parsed : Option (Int × Bool × FEnv × Nat × SState × List Notif) := do
+    | [dt, st], [fa, fb, [il, acc, ost, oty, oat], [re, idt, ack, wf, isf, pa], [sup, sbs], [nts]] =>
+      let parsed : Option (Int × SState × FEnv × FEnv × Bool × Bool × SState × SType × Nat × REnv × Nat × SState × List Notif) := do
         let dt ← parseInt? dt
-        let fired ← parseBool? fired
-        let e : FEnv := { paused := ← parseBool? pa, enabled := ← parseBool? en, stateSuppressed := ← parseBool? ss,
-                          inDowntime := ← parseBool? idt, isFlapping := ← parseBool? isf, likelySoon := ← parseBool? lk,
-                          parentRecent := ← parseBool? pr }
+        let st ← (parseNat? st) >>= SState.ofNat?
+        let ea ← parseF fa
+        let eb ← parseF fb
+        let il ← parseBool? il
+        let acc ← parseBool? acc
+        let ost ← (parseNat? ost) >>= SState.ofNat?
+        let oty ← (parseNat? oty) >>= SType.ofNat?
+        let oat ← parseNat? oat
+        let e : REnv := { notifReachable := ← parseBool? re, inDowntime := ← parseBool? idt, acked := ← parseBool? ack,
+                          wasFlapping := ← parseBool? wf, isFlapping := ← parseBool? isf, paused := ← parseBool? pa }
         let sup ← parseNat? sup
         let sbs ← (parseNat? sbs) >>= SState.ofNat?
         let nts ← parseNotifs nts
-        pure (dt, fired, e, sup, sbs, nts)
+        pure (dt, st, ea, eb, il, acc, ost, oty, oat, e, sup, sbs, nts)
       match parsed with
       | none => IO.println s!"BADLINE line={n}"; return d
-      | some (dt, fired, e, sup, sbs, nts) =>
+      | some (dt, st, ea, eb, il, acc, ost, oty, oat, e, sup, sbs, nts) =>
+        let now := d.now + dt
+        let r : Res := { state := st, execStart := now, now := now }
+        let (ms, mn, macc, mil) := C02.fireResultStep d.cfg d.st ea r e
+        let mut d := { d with steps := d.steps + 1, fires := d.fires + 1, results := d.results + 1, now := now }
+        let implTuple := (il, acc, ost, oty, oat, sup, sbs, nts)
+        let modelTuple := (mil, macc, ms.core.state, ms.core.stype, ms.core.attempt, ms.sup.toNat, ms.sbs, mn)
+        let agree := implTuple == modelTuple
+        if !agree then
+          IO.println s!"MISMATCH line={n} case={d.caseNo} op=FR impl={showBool il},{showBool acc},{ost.toNat},{oty.toNat},{oat},{sup},{sbs.toNat},{showNotifs nts} model={showBool mil},{showBool macc},{ms.core.state.toNat},{ms.core.stype.toNat},{ms.core.attempt},{ms.sup.toNat},{ms.sbs.toNat},{showNotifs mn}"
+          d := { d with mismatches := d.mismatches + 1 }
+        let (bad, sp') := C02.specFireResult d.cfg d.sp ea eb acc ost oty e nts (Sup.ofNat sup).hasState sbs
+        match bad with
+        | some cl =>
+          if !d.caseFailed then IO.println s!"SPECFAIL line={n} case={d.caseNo} clause={cl.name}"
+          d := { d with specfails := d.specfails + 1, caseFailed := true }
+        | none => pure ()
+        if il then d := bump { d with interleaved := d.interleaved + 1 }
+        let st' : C02.St := if agree then ms else
+          { core := { state := ost, stype := oty, attempt := oat, lastHard := ms.core.lastHard,
+                      lastExec := if acc then some now else d.st.core.lastExec },
+            sup := Sup.ofNat sup, sbs := sbs }
+        -- after a rejected pair the bookkeeping restarts from the attributes
+        let sp'' : C02.SpecSt := if bad.isSome then
+            { sp' with pending := if (Sup.ofNat sup).hasState then some sbs else none } else sp'
+        return { d with st := st', sp := sp'' }
+    | _, _ => IO.println s!"BADLINE line={n}"; return d
+  | "F" :: rest =>
+    let (pre, post) := splitBar rest
+    match pre, splitSemi post with
+    | [dt, _via], [[fired, pa, en, ss, idt, isf, act, ivl, nin, pr], [sup, sbs], [lk], [nts]] =>
+      let parsed : Option (Int × Bool × FEnv × Nat × SState × Bool × List Notif) := do
+        let dt ← parseInt? dt
+        let fired ← parseBool? fired
+        let e : FEnv := { paused := ← parseBool? pa, enabled := ← parseBool? en, stateSuppressed := ← parseBool? ss,
+                          inDowntime := ← parseBool? idt, isFlapping := ← parseBool? isf,
+                          activeChecks := ← parseBool? act, interval := ← parseInt? ivl, nextIn := ← parseInt? nin,
+                          parentRecent := ← parseBool? pr }
+        let sup ← parseNat? sup
+        let sbs ← (parseNat? sbs) >>= SState.ofNat?
+        let lk ← parseBool? lk
+        let nts ← parseNotifs nts
+        pure (dt, fired, e, sup, sbs, lk, nts)
+      match parsed with
+      | none => IO.println s!"BADLINE line={n}"; return d
+      | some (dt, fired, e, sup, sbs, lk, nts) =>
         let mut d := { d with steps := d.steps + 1, fires := d.fires + 1, now := d.now + dt }
         let (ms, mn) := if fired then C02.fireStep d.cfg d.st e else (d.st, [])
-        let agree := (sup, sbs, nts) == (ms.sup.toNat, ms.sbs, mn)
+        let agree := (sup, sbs, lk, nts) == (ms.sup.toNat, ms.sbs, e.likelySoon, mn)
         if !agree then
-          IO.println s!"MISMATCH line={n} case={d.caseNo} op=F impl={sup},{sbs.toNat},{showNotifs nts} model={ms.sup.toNat},{ms.sbs.toNat},{showNotifs mn}"
+          IO.println s!"MISMATCH line={n} case={d.caseNo} op=F impl={sup},{sbs.toNat},{showBool lk},{showNotifs nts} model={ms.sup.toNat},{ms.sbs.toNat},{showBool e.likelySoon},{showNotifs mn}"
           d := { d with mismatches := d.mismatches + 1 }
-        let (bad, sp') := if fired then C02.specStep d.cfg d.sp (.fire e nts)
+        let (bad, sp') := if fired then C02.specStep d.cfg d.sp (.fire e nts (Sup.ofNat sup).hasState sbs)
                           else ((if nts.isEmpty then none else some Clause.fireNoPending), d.sp)
         match bad with
         | some cl =>
           if !d.caseFailed then IO.println s!"SPECFAIL line={n} case={d.caseNo} clause={cl.name}"
           d := { d with specfails := d.specfails + 1, caseFailed := true }
         | none => pure ()
+        if fired && e.likelySoon then d := { d with soon := d.soon + 1 }
         if d.sp.pending.isSome && !sp'.pending.isSome then
           d := bump (if (statePart nts).isEmpty then { d with dismissed := d.dismissed + 1 } else { d with released := d.released + 1 })
         let st' : C02.St := if agree then ms else { d.st with sup := Sup.ofNat sup, sbs := sbs }
         return { d with st := st', sp := sp' }
     | _, _ => IO.println s!"BADLINE line={n}"; return d
-  | _ => return d   -- D+/D-/A+/A-/P/U/N: environment changes, visible to the model through the oracle inputs
+  | "Y" :: sup :: sbs :: _ =>
+    -- restore / cluster sync of the two attributes: model and bookkeeping restart from them
+    match parseNat? sup, (parseNat? sbs) >>= SState.ofNat? with
+    | some sup, some sbs =>
+      let m := Sup.ofNat sup
+      return { d with st := { d.st with sup := m, sbs := sbs }, synced := d.synced + 1,
+                      sp := { d.sp with pending := if m.hasState then some sbs else none,
+                                        flapPending := if m.flapStart then some true else if m.flapEnd then some false else none } }
+    | _, _ => IO.println s!"BADLINE line={n}"; return d
+  | _ => return d   -- D+/D-/A+/A-/P/U/N/E/X: environment changes, visible to the model through the environment inputs
 
 def main : IO Unit := do
   let stdin ← IO.getStdin
   let d ← foldLines stdin handle ({} : DSt)
-  IO.println s!"STATS cases={d.caseNo} steps={d.steps} results={d.results} fires={d.fires} sent_immediate={d.sentImmediate} stashed={d.stashed} released={d.released} dismissed={d.dismissed} flap_notifs={d.flapNotifs} nontrivial={d.nontrivial} mismatches={d.mismatches} specfails={d.specfails}"
+  IO.println s!"STATS cases={d.caseNo} steps={d.steps} results={d.results} fires={d.fires} sent_immediate={d.sentImmediate} stashed={d.stashed} released={d.released} dismissed={d.dismissed} flap_notifs={d.flapNotifs} imminent={d.soon} interleaved={d.interleaved} synced={d.synced} nontrivial={d.nontrivial} mismatches={d.mismatches} specfails={d.specfails}"
